@@ -13,6 +13,7 @@ from qstatic.src import AnalysisError
 
 def new_interp(ctx, chooser=None, choice=None, summaries=None, **kw):
     d = SymDomain(choice=choice)
+    d.ctx = ctx          # domain-level obligations (dtype provenance of buffers) are reported through the rule's context
     it = Interp(ctx.program, d, chooser=chooser, summaries=summaries, **kw)
     d._interp = it
     from qstatic.scenario import default_choice
@@ -51,6 +52,7 @@ def planes_of(A):
         pl = mk(A.shape, "real")
         for idx in itertools.product(*[range(s) for s in A.shape]):
             pl[idx] = A[idx].c[p]
+        pl._dt = f"plane{p}"          # the four planes are independent arrays: their dtypes need not agree
         out.append(pl)
     return out
 
@@ -108,3 +110,69 @@ def run_guarded(fn):
 def short(x, n=300):
     s = repr(x)
     return s if len(s) <= n else s[: n - 3] + "..."
+
+
+# ---------------------------------------------------------------------------------------------------------------------------
+# constructor clause shared by the solver rules (C03, C04, C13)
+CTOR_NORMALISED = {
+    # (class, parameter): reason why the stored value may differ from the argument
+    ("CGNEQSolver", "preconditioner_rank"): "documented clamp max(0, rank)",
+}
+
+
+def check_ctor_verbatim(ctx, modname, clsname, RULE):
+    """The rules build solver objects directly from attribute values (gamma, tol, max_iter ...), i.e. they assume that the
+    constructor hands the caller's configuration to the methods unchanged.  This clause decides that assumption from the source
+    of __init__: on every path that returns, each numeric parameter that is stored under its own name holds exactly the value
+    passed (a constructor that silently replaces an in-domain value, e.g. gamma = 1 by the default, breaks every statement made
+    about 'all configurations')."""
+    import ast as _ast
+    from qstatic.interp import ClassRef, PathExplorer
+    ci = ctx.program.cls(modname, clsname)
+    init = ci.methods.get("__init__")
+    if init is None:
+        return
+    ctx.touch(init)
+    a = init.node.args
+    names = [x.arg for x in a.args[1:]]
+    defaults = [None] * (len(names) - len(a.defaults)) + list(a.defaults)
+    sym = {}
+    kwargs = {}
+    for nm, dflt in zip(names, defaults):
+        if isinstance(dflt, _ast.Constant) and isinstance(dflt.value, (int, float)) and not isinstance(dflt.value, bool):
+            sym[nm] = Poly.atom(("cfg", nm))
+            kwargs[nm] = sym[nm]
+        elif dflt is None:
+            raise AnalysisError(f"{clsname}.__init__: parameter {nm!r} without default (constructor clause needs a value)")
+
+    def fn(chooser):
+        it, d = new_interp(ctx, chooser=chooser)
+        return it.call(ClassRef(ci), [], dict(kwargs))
+
+    ex = PathExplorer(max_paths=256)
+    results = ex.explore(fn)
+    done = 0
+    for taken, (st, val) in results:
+        tag = f"{clsname}.__init__ path {taken}"
+        if st == "raise":
+            continue                       # argument guards (C20)
+        if st != "ok":
+            ctx.ob(RULE, tag, False, f"constructor fails in-domain: {val}", where=init.where, construct=f"{clsname}.__init__ fails",
+                   loc=init.loc())
+            continue
+        done += 1
+        for nm, s in sym.items():
+            if (clsname, nm) in CTOR_NORMALISED or nm not in val.attrs:
+                continue
+            got = val.attrs[nm]
+            try:
+                ok = Poly.lift(got).same(s)
+            except TypeError:
+                ok = False
+            ctx.ob(RULE, f"{clsname}.__init__ stores {nm} verbatim (path {taken})", ok,
+                   f"self.{nm} is {short(got)} instead of the argument on the path where the tests {taken} are taken: an in-domain "
+                   f"configuration value is silently replaced", where=init.where,
+                   construct=f"{clsname}.__init__: {nm} not stored verbatim", loc=init.loc())
+    if done == 0:
+        ctx.ob(RULE, f"{clsname}.__init__", False, "no constructor path returns", where=init.where,
+               construct=f"{clsname}.__init__ never returns", loc=init.loc())
